@@ -210,7 +210,8 @@ C09_IgnoreStale ==
         \* of that term; that is not an install
     IN  (stale \/ matches) =>
           /\ Post.usnap = Pre.usnap /\ Post.uents = Pre.uents /\ Post.uoff = Pre.uoff
-          /\ Post.commit = (IF stale THEN Pre.commit ELSE Max2(Pre.commit, s.index))
+          \* "at most the commit index is fast-forwarded" (a message of a stale term is ignored altogether)
+          /\ Post.commit \in (IF stale THEN {Pre.commit} ELSE {Pre.commit, Max2(Pre.commit, s.index)})
 C09_SnapPrefixCommitted ==
   ActUp => \A k \in DOMAIN NewMsgs :
     NewMsgs[k].type = "Snap" =>
